@@ -247,7 +247,7 @@ def run_case(case):
     # fail nor touch the iterate; tqdm itself is silenced through TQDM_DISABLE)
     kw = dict(proxg=proxg, lamda=lam, G=G, z=z, solver=solver,
               show_pbar=bool(sum(case["rs"]) % 6 == 3), leave_pbar=False,
-              max_iter=ITERS[eff], accelerate=case["acc"])
+              max_iter=ITERS[eff] * (8 if case.get("_more") else 1), accelerate=case["acc"])
     if case["P"] and eff in ("ConjugateGradient", "ADMM"):
         d = np.real(np.diag(Hmat))
         kw["P"] = L.Multiply(xshape, (1 / d).reshape(xshape))
@@ -339,6 +339,13 @@ def run_case(case):
     obs = {"gap_rel": gap / max(1.0, abs(phis)), "iters": app.alg.iter,
            "dist": nrm(xr.ravel() - xref) / max(1.0, nrm(xref)),
            "y_unchanged": bool(np.array_equal(y, y_keep))}
+    if not gap <= tol * max(1.0, abs(phis)) and eff == "ADMM" and not case.get("_more") \
+            and np.all(np.isfinite(xr)) and gap <= 0.05 * max(1.0, abs(phis)):
+        # ADMM's rate depends on rho and on G (with a tall G, no prox and rho = 3 the default
+        # budget leaves a gap of 1e-3 that is 1e-14 four budgets later): "returns the
+        # minimiser" is a statement about the converged run, so a small miss is re-decided
+        # with eight times the budget before it is called wrong (a wrong fixed point stays)
+        return run_case(dict(case, _more=True))
     if not gap <= tol * max(1.0, abs(phis)):
         return violated(sig, "objective at the returned x is %.6g above the certified optimum "
                         "%.6g (relative gap %.3g, tol %.1g) with solver %s after %d iterations; "
